@@ -281,6 +281,59 @@ pub fn check_text(text: &str, parts: Option<(&[&str], &[&str])>, acc: &mut Acc) 
     }
 }
 
+/// `lines` good lines, then `col` spaces and an unlexable token, in the file at include depth `depth` (0 = entry file)
+fn check_included_position(bad: (&str, usize), lines: usize, col: usize, crlf: bool, depth: usize, acc: &mut Acc) {
+    acc.evals += 1;
+    let nl = if crlf { "\r\n" } else { "\n" };
+    let names = ["main.rssl", "first.h", "second.h"];
+    let mut body = String::new();
+    for i in 0..lines {
+        body.push_str(&format!("int ok_{}_{};{}", depth, i, nl));
+    }
+    body.push_str(&" ".repeat(col));
+    body.push_str(bad.0);
+    body.push_str(nl);
+    let mut files: Vec<(String, String)> = Vec::new();
+    for dpt in 0..=depth {
+        if dpt == depth {
+            files.push((names[dpt].to_string(), body.clone()));
+        } else {
+            // two lines of its own before the include so that the global offset differs from the offset in the file
+            files.push((names[dpt].to_string(), format!("int before_{};{}int more_{};{}#include \"{}\"{}", dpt, nl, dpt, nl, names[dpt + 1], nl)));
+        }
+    }
+    let replay = format!("kind: included-position\n{}\n{}\n{}\n{}\n{}", bad.0, lines, col, crlf, depth);
+    let r = guard(|| {
+        use rssl::text::CompileErrorExt;
+        let mut sm = SourceManager::new();
+        let fs: Vec<(&str, &str)> = files.iter().map(|(a, b)| (a.as_str(), b.as_str())).collect();
+        let mut inc = crate::util::MapIncludes(&fs);
+        rssl::preprocess::preprocess("main.rssl", &mut sm, &mut inc, &[]).map(|_| ()).map_err(|e| format!("{}", e.display(&sm)))
+    });
+    match r {
+        Err(p) => acc.violation(Violation { signature: p.signature(), detail: format!("preprocessing panicked: {}", p.message), replay }),
+        Ok(Ok(())) => acc.count("included_position_cases_accepted(not judged)"),
+        Ok(Err(msg)) => {
+            let head = msg.lines().next().unwrap_or("");
+            let want_file = names[depth];
+            // where the reported position may lie: inside the offending token (its start is what rssl reports today)
+            let line = lines + 1;
+            let (c0, c1) = (col + 1, col + bad.0.len() + 1);
+            let mut it = head.splitn(4, ':');
+            let (f, l, c) = (it.next().unwrap_or(""), it.next().and_then(|x| x.trim().parse::<usize>().ok()), it.next().and_then(|x| x.trim().parse::<usize>().ok()));
+            let line_len = col + bad.0.len() + 1;
+            match (l, c) {
+                (Some(l), Some(c)) if f == want_file && l == line && c >= c0 && c <= c1.max(c0) && c <= line_len + 1 => acc.outcome(&("included-position", depth, lines, col)),
+                _ => acc.violation(Violation {
+                    signature: format!("position|diagnostic-in-included-file|{}", if f != want_file { "file" } else if l != Some(line) { "line" } else { "column" }),
+                    detail: format!("`{}` at {}:{}:{} (include depth {}, {}) is diagnosed as `{}`", bad.0, want_file, line, c0, depth, if crlf { "CRLF" } else { "LF" }, head),
+                    replay,
+                }),
+            }
+        }
+    }
+}
+
 // ---------------------------------------------------------------------------------------------
 // integers
 
@@ -650,7 +703,7 @@ fn check_output_literal(spelling: &str, suffix: &str, acc: &mut Acc) {
 // D2: integer literal unchanged in the output, in every context kind: kept untyped, converted to int / uint, converted to
 // half / float / double (one rounding of the written value)
 
-const INT_CONTEXTS: [&str; 6] = ["untyped", "int", "uint", "half", "float", "double"];
+const INT_CONTEXTS: [&str; 8] = ["untyped", "int", "uint", "half", "float", "double", "negated-int", "negated-const"];
 
 fn out_int_values(quick: bool) -> Vec<u64> {
     let mut v: Vec<u64> = vec![0, 1, 2, 7, 8, 9, 10, 15, 100, 255, 1000, 65504, 65535, 16777217, 1000000007, 123456789012345678, u64::MAX, u64::MAX - 1, u64::MAX - 1024, u64::MAX - 1025];
@@ -678,6 +731,9 @@ fn check_output_int(n: u64, radix: u32, context: &str, acc: &mut Acc) {
         "half" if n <= 2048 => (format!("half f() {{ return {}; }}\n", lit), vec![n as f64]),
         "float" => (format!("float f() {{ return {}; }}\n", lit), vec![n as f32 as f64, n as f64 as f32 as f64]),
         "double" => (format!("double f() {{ return {}; }}\n", lit), vec![n as f64]),
+        // the negation of a literal folded into an int constant (INT_MIN is the value whose magnitude does not fit)
+        "negated-int" if n <= 1 << 31 => (format!("int f() {{ return -{}; }}\n", lit), vec![-(n as f64)]),
+        "negated-const" if n <= 1 << 31 => (format!("static const int k = -{};\nint f() {{ return k; }}\n", lit), vec![-(n as f64)]),
         _ => return,
     };
     let replay = format!("kind: out-int\n{}\n{}\n{}", n, radix, context);
@@ -686,10 +742,24 @@ fn check_output_int(n: u64, radix: u32, context: &str, acc: &mut Acc) {
         Ok(Err(_)) => acc.count("out_int_rejected"),
         Ok(Ok(ps)) => {
             let text = String::from_utf8_lossy(&ps[0].data).to_string();
-            let body = text.split_once("return").map(|x| x.1).unwrap_or("").split(';').next().unwrap_or("").to_string();
+            let key = if context == "negated-const" { "k =" } else { "return" };
+            let body = text.split_once(key).map(|x| x.1).unwrap_or("").split(';').next().unwrap_or("").to_string();
             let toks = literal_tokens(&body).unwrap_or_default();
             let first = toks.first();
-            let ok = if want.is_empty() {
+            let ok = if context.starts_with("negated") {
+                // `-N` (or `N` for zero), possibly behind a cast to int
+                let b: String = body.chars().filter(|c| !c.is_whitespace() && *c != '(' && *c != ')').collect();
+                let b = b.strip_prefix("int").unwrap_or(&b);
+                let (neg, digits) = match b.strip_prefix('-') {
+                    Some(r) => (true, r),
+                    None => (false, b),
+                };
+                let digits = digits.trim_end_matches(|c| c == 'u' || c == 'U' || c == 'l' || c == 'L');
+                match digits.parse::<i128>() {
+                    Ok(v) => (if neg { -v } else { v }) == -(n as i128),
+                    Err(_) => false,
+                }
+            } else if want.is_empty() {
                 // the first literal of the returned expression is the written one, as an integer of the same value
                 matches!(first, Some(Token::LiteralInt(v) | Token::LiteralIntUnsigned32(v) | Token::LiteralIntUnsigned64(v)) if *v == n)
             } else {
@@ -793,6 +863,17 @@ pub fn run(ctx: &Ctx) -> i32 {
             check_text(&text, Some((&["x", "y"], &[sep.as_str(), ""])), acc);
         });
         rep.absorb("comment_bodies", r);
+    }
+
+    // A3: a diagnostic inside an included file names that file and a position inside it
+    {
+        let bads: [(&str, usize); 4] = [("`", 0), ("1.0p", 3), ("\"abc", 0), ("99999999999999999999999", 0)];
+        let r = run_par(ctx, (bads.len() * 4 * 4 * 2 * 3) as u64, 8, |idx, acc| {
+            let mut d = Vec::new();
+            decode(idx, &[3, 2, 4, 4, bads.len() as u64], &mut d);
+            check_included_position(bads[d[4] as usize], d[3] as usize, d[2] as usize, d[1] == 1, d[0] as usize, acc);
+        });
+        rep.absorb("diagnostic_positions_in_included_files", r);
     }
 
     // B: integers
@@ -905,6 +986,14 @@ pub fn replay(ctx: &Ctx, body: &str) -> i32 {
             let sp = rest.trim();
             let cut = sp.trim_end_matches(|c: char| "fhlFHL".contains(c));
             check_float(cut, &sp[cut.len()..], &mut acc);
+        }
+        "kind: included-position" => {
+            let l: Vec<&str> = rest.lines().collect();
+            if l.len() < 5 {
+                eprintln!("machinery error: included-position needs 5 lines");
+                return 2;
+            }
+            check_included_position((l[0], 0), l[1].parse().unwrap_or(0), l[2].parse().unwrap_or(0), l[3] == "true", l[4].parse().unwrap_or(0), &mut acc);
         }
         "kind: out-int" => {
             let mut it = rest.lines();
